@@ -95,9 +95,12 @@ Definition s_step (m : smap) (o : op) : smap * res :=
       match s_lookup m ot or_ with
       | None => (m, RFail)
       | Some e => if (nr =? 0) || (or_ =? 0) then (m, RFail) else
+                  (* the duplicate of a special element is recorded under the special variant of the new tag *)
+                  let nt' := if is_special (e_tag e) && negb (is_special nt) then MKSPECIALTAG nt else nt in
+                  if nt' =? DFTAG_NULL then (m, RFail) else
                   match s_lookup m nt nr with
                   | Some _ => (m, RFail)
-                  | None => (m ++ [mkentry nt nr (e_len e)], ROk)
+                  | None => (m ++ [mkentry nt' nr (e_len e)], ROk)
                   end
       end
   | ODel t r =>
